@@ -102,7 +102,7 @@ Lemma flog10_spec x : 0 < x -> p10 (flog10 x) <= x /\ x < p10 (flog10 x + 1).
 Proof.
   intro Hx. destruct x as [n q]. unfold flog10. cbn [Qnum Qden].
   destruct n as [|p|p]; [discriminate Hx| |discriminate Hx].
-  set (r := flog_search _ (Z.min _ _) _).
+  set (r := flog_search _ _ 4).
   destruct (in_decade (Z.pos p # q) r) eqn:D.
   - unfold in_decade in D. apply andb_true_iff in D. destruct D as [D1 D2].
     apply Qle_bool_iff in D1. apply negb_true_iff in D2.
